@@ -5,6 +5,7 @@ package rig
 import (
 	"fmt"
 	"strconv"
+	"strings"
 
 	"verif/harness/ref"
 )
@@ -50,13 +51,14 @@ const (
 // InMsg is an inbound message assembled by REF (never by the library).
 type InMsg struct {
 	Type     string    `json:"type"`
-	Seq      string    `json:"seq"`               // MsgSeqNum text
-	NoSeq    bool      `json:"no_seq,omitempty"`  // leave MsgSeqNum out
+	Seq      string    `json:"seq"`              // MsgSeqNum text
+	NoSeq    bool      `json:"no_seq,omitempty"` // leave MsgSeqNum out
 	Sender   string    `json:"sender,omitempty"`
 	Target   string    `json:"target,omitempty"`
 	PreSeq   []ref.Tok `json:"pre_seq,omitempty"` // header fields placed before MsgSeqNum (decoys)
 	Fields   []ref.Tok `json:"fields,omitempty"`  // body fields
-	Damage   string    `json:"damage,omitempty"`  // "", "checksum", "bodylength", "truncate", "no-msgtype"
+	PadLen   int       `json:"pad_len,omitempty"` // BodyLength written with this many leading zeros (the same number, another legal spelling)
+	Damage   string    `json:"damage,omitempty"`  // "", "checksum", "checksum-spelling", "bodylength", "bodylength-extreme", "truncate", "no-msgtype"
 	DamageBy int       `json:"damage_by,omitempty"`
 	Note     string    `json:"note,omitempty"`
 }
@@ -85,7 +87,24 @@ func (m *InMsg) Bytes() []byte {
 		msgType = ""
 	}
 	b := ref.Assemble(ref.StdTags, "FIX.4.4", msgType, toks)
+	if m.PadLen > 0 {
+		ts, _ := ref.Tokenize(b)
+		b = relength(b, ts[1].Val, strings.Repeat("0", m.PadLen)+ts[1].Val)
+	}
 	switch m.Damage {
+	case "checksum-spelling":
+		// the right number, not written as three digits
+		n := len(b)
+		cs, _ := strconv.Atoi(string(b[n-4 : n-1]))
+		txt := strconv.Itoa(cs)
+		if len(txt) == 3 {
+			txt = "0" + txt
+		}
+		b = append(append([]byte(nil), b[:n-4]...), []byte(txt+"\x01")...)
+	case "bodylength-extreme":
+		ts, _ := ref.Tokenize(b)
+		ext := []string{"0", "99999", "-30", "2147483648", "99999999999999999999", "-9223372036854775808", "1"}
+		b = relength(b, ts[1].Val, ext[m.DamageBy%len(ext)])
 	case "checksum":
 		n := len(b)
 		cs, _ := strconv.Atoi(string(b[n-4 : n-1]))
@@ -115,6 +134,19 @@ func (m *InMsg) Bytes() []byte {
 		}
 	}
 	return b
+}
+
+// relength replaces the BodyLength text of a framed message and recomputes the
+// CheckSum, so that only what the BodyLength field says has changed.
+func relength(b []byte, oldText, newText string) []byte {
+	prefix := "8=FIX.4.4\x019="
+	rest := b[len(prefix)+len(oldText)+1:]
+	body := append([]byte(prefix+newText+"\x01"), rest[:len(rest)-7]...)
+	sum := 0
+	for _, c := range body {
+		sum += int(c)
+	}
+	return append(body, []byte(fmt.Sprintf("10=%03d\x01", sum%256))...)
 }
 
 // Out is a decoded outbound message.
